@@ -2,6 +2,7 @@ package sys
 
 import (
 	"archive/tar"
+	"bytes"
 	"crypto/sha256"
 	"encoding/hex"
 	"encoding/json"
@@ -28,6 +29,8 @@ type UnpackArg struct {
 	Dst        string       `json:"dst,omitempty"`         // spelling of dst: "" clean, "slash", "dot"
 	Allow      bool         `json:"allow,omitempty"`       // AllowSymlinkTarget(<P>/allowed)
 	AllowEmpty bool         `json:"allow_empty,omitempty"` // AllowSymlinkTarget("")
+	AllowRel   string       `json:"allow_rel,omitempty"`   // AllowSymlinkTarget(<this relative entry>): relative to the destination of EACH operation
+	Pre        string       `json:"pre,omitempty"`         // the same Packer was used before: "fail" = an Unpack into <P>/pre/dst2 that failed half-way, "link" = one that met an allow-listed link
 	Cut        int          `json:"cut"`                   // -1: whole stream; else stream ends/fails at this offset
 	Mode       string       `json:"mode,omitempty"`        // "eof" | "err"
 	Chunk      int          `json:"chunk,omitempty"`
@@ -90,6 +93,8 @@ func makeUnpackArena() unpackArena {
 	mkfile(filepath.Join(a.P, "dst-evil", "t"), "T", 0444)
 	mkfile(filepath.Join(a.P, "dst-evil", "keep"), "K", 0644)
 	mkfile(filepath.Join(a.Allowed, "f"), "F", 0644)
+	mkfile(filepath.Join(a.P, "pre", "allowed", "f"), "PF", 0644)
+	os.MkdirAll(filepath.Join(a.P, "pre", "dst2"), 0755)
 	os.MkdirAll(a.Dst, 0755)
 	for _, d := range []string{a.Allowed, filepath.Join(a.P, "dst-evil"), a.P, filepath.Join(a.A, "L1", "L2"), filepath.Join(a.A, "L1"), a.A} {
 		os.Chtimes(d, oldTime, oldTime)
@@ -161,9 +166,30 @@ func runUnpackOnce(a unpackArena, arg UnpackArg, entries []tarx.Entry) (out Unpa
 	if arg.AllowEmpty {
 		opts = append(opts, slug.AllowSymlinkTarget(""))
 	}
+	if arg.AllowRel != "" {
+		opts = append(opts, slug.AllowSymlinkTarget(arg.AllowRel))
+	}
 	p, err := slug.NewPacker(opts...)
 	if err != nil {
 		panic("INTERNAL NewPacker: " + err.Error())
+	}
+	if arg.Pre != "" {
+		// history on the same Packer, into another destination (<P>/pre/dst2)
+		pre := []tarx.Entry{{Name: "d/", Kind: "dir", Mode: 0777}, {Name: "l", Kind: "link", Target: "../allowed/f"}, {Name: "esc", Kind: "link", Target: "../../secret"}, {Name: "d/f", Kind: "reg", Body: "0123456789"}}
+		if arg.Pre == "link" {
+			pre = pre[:2] // succeeds when "../allowed" is allow-listed (it names <P>/pre/allowed there)
+		}
+		pdata, perr := tarx.Build(pre, tar.FormatUSTAR)
+		if perr != nil {
+			panic("INTERNAL pre archive: " + perr.Error())
+		}
+		func() {
+			defer func() { recover() }()
+			p.Unpack(bytes.NewReader(pdata), filepath.Join(a.P, "pre", "dst2"))
+		}()
+		os.Chmod(filepath.Join(a.P, "pre", "dst2", "d"), 0700) // whatever is done to it from now on is the next call's doing
+		os.Chtimes(filepath.Join(a.P, "pre", "dst2", "d"), oldTime, oldTime)
+		before = fsx.Snapshot(a.A, a.Dst)
 	}
 	rd := &tarx.FaultReader{Data: data, Cut: arg.Cut, Mode: arg.Mode, Chunk: arg.Chunk}
 	func() {
@@ -207,6 +233,13 @@ func runUnpackOnce(a unpackArena, arg UnpackArg, entries []tarx.Entry) (out Unpa
 			LexInside: fsx.Inside(realDst, lex), Loop: loop}
 		if arg.Allow && (fsx.Inside(a.Allowed, res) || fsx.Inside(a.Allowed, lex)) {
 			lf.Allowed = true
+		}
+		if arg.AllowRel != "" {
+			// a relative entry names a place relative to THIS destination
+			ar := filepath.Join(a.Dst, arg.AllowRel)
+			if fsx.Inside(ar, res) || fsx.Inside(ar, lex) {
+				lf.Allowed = true
+			}
 		}
 		out.Links = append(out.Links, lf)
 		return nil
@@ -270,14 +303,14 @@ func unpackAlphabet(full bool) []tarx.Entry {
 	regNames := []string{"a", "a/b", "y", "y/x", "a/up", "/abs", "../dst-evil/x", "../dst-evil/t", "a/../../dst-evil/x", "../secret", ".", "nx/../y/x", "nx/../y", "/../dst-evil/x", "a//b", "./y/./x", "..a", ".../x", "pre/x", "pre", "prelink", "prefile", "predir/x", "pre/dst-evil/x"}
 	dirNames := []string{"a/", "a", "y/", "a/b/", "a/up/", "../dst-evil/", "../dst-evil/x/", ".", "nx/../y/", "nx/../y/x/", "pre/", "pre/sub/", "prelink"}
 	linkNames := []string{"a", "y", "a/up", "a/b", "y/x", "/abs", "/a/l", "../dst-evil/x", "nx/../y/x", "y/", "a/up/.", "y/a/up"}
-	targets := []string{"a", "a/b", "..", ".", "../..", "../../<DSTREL>/a", "../<DSTREL>/a", "a/up/..", "a/up/../secret", "../dst-evil", "../dst-evil/t", "../secret", "<DST>/a", "<P>/secret", "../allowed/f"}
+	targets := []string{"a", "a/b", "..", ".", "../..", "../../<DSTREL>/a", "../<DSTREL>/a", "a/up/..", "a/up/../secret", "../dst-evil", "../dst-evil/t", "../secret", "<DST>/a", "<P>/secret", "../allowed/f", "../../allowed/f", "../pre/allowed/f"}
 	otherKinds := []tarx.Entry{{Name: "../dst-evil/sub/g", Kind: "xglobal"}, {Name: "y/sub/g", Kind: "xglobal"}, {Name: "g", Kind: "xglobal"},
 		{Name: "../dst-evil/ff", Kind: "fifo"}, {Name: "../dst-evil/sub/hl", Kind: "hard", Target: "../secret"}, {Name: "hl", Kind: "hard", Target: "../secret"}}
 	if !full {
 		regNames = []string{"a", "a/b", "y", "y/x", "../dst-evil/x", "../dst-evil/t", "a/../../dst-evil/x", "nx/../y/x", "/../dst-evil/x", "pre/x", "prelink", "prefile"}
 		dirNames = []string{"a/", "y", "../dst-evil/", "a/up/", "pre/"}
 		linkNames = []string{"a", "y", "a/up", "y/a/up", "/a/l", "/abs"}
-		targets = []string{"a", "..", ".", "../..", "../../<DSTREL>/a", "../<DSTREL>/a", "a/up/..", "a/up/../secret", "../dst-evil", "../dst-evil/t", "<P>/secret"}
+		targets = []string{"a", "..", ".", "../..", "../../<DSTREL>/a", "../<DSTREL>/a", "a/up/..", "a/up/../secret", "../dst-evil", "../dst-evil/t", "<P>/secret", "../allowed/f", "../../allowed/f", "../pre/allowed/f"}
 		otherKinds = otherKinds[:2]
 	}
 	for _, n := range regNames {
@@ -311,13 +344,15 @@ type unpackCfg struct {
 	Dst        string
 	Allow      bool
 	AllowEmpty bool // AllowSymlinkTarget(""): must allow nothing
+	AllowRel   string
+	Pre        string
 	UID        int
 	Chunk      int
 	Prepop     bool
 }
 
 func (c unpackCfg) String() string {
-	return fmt.Sprintf("dst=%q allow=%v allow-empty-entry=%v uid=%d chunk=%d prepopulated=%v", c.Dst, c.Allow, c.AllowEmpty, c.UID, c.Chunk, c.Prepop)
+	return fmt.Sprintf("dst=%q allow=%v allow-empty-entry=%v allow-relative=%q packer-used-before=%q uid=%d chunk=%d prepopulated=%v", c.Dst, c.Allow, c.AllowEmpty, c.AllowRel, c.Pre, c.UID, c.Chunk, c.Prepop)
 }
 
 // classifyOutside gives the attribution signature of an outside change from
@@ -400,6 +435,10 @@ func RunUnpackSafety(id, tier string) int {
 			{unpackCfg{Dst: "link"}, false, 3, true},
 			{unpackCfg{Allow: true}, true, 2, true},
 			{unpackCfg{AllowEmpty: true}, true, 2, true},
+			{unpackCfg{AllowRel: "../allowed"}, true, 2, true},
+			{unpackCfg{AllowRel: "../../allowed"}, false, 2, true},
+			{unpackCfg{AllowRel: "../allowed", Pre: "link"}, true, 2, true},
+			{unpackCfg{Pre: "fail"}, true, 2, true},
 			{unpackCfg{Allow: true, UID: 65534}, false, 3, true},
 			{unpackCfg{Chunk: 1}, true, 2, true},
 			{unpackCfg{Prepop: true}, true, 2, true},
@@ -414,6 +453,10 @@ func RunUnpackSafety(id, tier string) int {
 			{unpackCfg{Dst: "slash"}, false, 2, true},
 			{unpackCfg{Allow: true}, false, 2, true},
 			{unpackCfg{AllowEmpty: true}, false, 2, true},
+			{unpackCfg{AllowRel: "../allowed"}, false, 2, true},
+			{unpackCfg{AllowRel: "../../allowed"}, false, 2, true},
+			{unpackCfg{AllowRel: "../allowed", Pre: "link"}, false, 2, true},
+			{unpackCfg{Pre: "fail"}, false, 2, true},
 			{unpackCfg{Prepop: true}, false, 2, true},
 			{unpackCfg{}, false, 3, true},
 			{unpackCfg{Dst: "slash"}, false, 3, true},
@@ -504,7 +547,7 @@ func RunUnpackSafety(id, tier string) int {
 					es[j] = alpha[o]
 				}
 				last := es[len(es)-1]
-				args[i] = UnpackArg{Entries: es, Dst: pl.cfg.Dst, Allow: pl.cfg.Allow, AllowEmpty: pl.cfg.AllowEmpty, Cut: -1, Chunk: pl.cfg.Chunk, Prepop: pl.cfg.Prepop,
+				args[i] = UnpackArg{Entries: es, Dst: pl.cfg.Dst, Allow: pl.cfg.Allow, AllowEmpty: pl.cfg.AllowEmpty, AllowRel: pl.cfg.AllowRel, Pre: pl.cfg.Pre, Cut: -1, Chunk: pl.cfg.Chunk, Prepop: pl.cfg.Prepop,
 					Benign: id == "C04" && last.Kind == "link" && lexEscapes(last.Name, last.Target) && !(pl.cfg.Allow && strings.Contains(last.Target, "allowed"))}
 				return args[i]
 			}, func(i int, r core.Result) {
